@@ -1,4 +1,4 @@
-(* Non-vacuity, part 2: examples for the property theorems added to props/C02.v, C09.v, C11.v, C14.v
+(* Non-vacuity, part 2: examples for the property theorems added to props/C02.v, C04.v, C09.v, C11.v, C14.v
    after proofs/NonVacuity.v was written.  Same style: every hypothesis is stated literally for a
    concrete, non-trivial instance over a concrete semiring and proved; the theorem is then applied and
    a computed value is given.  No axioms. *)
@@ -184,9 +184,38 @@ Proof.
   exact (C14.C14_conjugates_are_equivalent QcSR exF idm exA exB exB H1 H2).
 Qed.
 
+(* ================================================================================================
+   C04 (rescaling)
+   ================================================================================================ *)
+From GV.model Require Import Norm.
+From GV.proofs Require RescaleProofs.
+From GV.props Require C04.
+
+(* the language model nw4 of NonVacuity.v (weight (1/2)^(n+1) for 0^n), every context's weights multiplied by
+   the coefficient 3 * (1/2)^|ctx| -- a different, non-zero factor per context, as the rescaled parser's columns carry *)
+Definition c4 (ctx : list nat) : QcFR := (mkq 3 1 * hp (length ctx))%Qc.
+
+Example C04_rescaling_invariant_nonvacuous :
+  c4 [0; 0] <> s0 /\ zsum [0] 1 nw4 [0; 0] <> s0 /\
+  RescaleProofs.scaled QcFR c4 nw4 [0; 0] 0 <> nw4 [0; 0] 0 /\
+  p_next [0] 1 (RescaleProofs.scaled QcFR c4 nw4) [0; 0] 0 = p_next [0] 1 nw4 [0; 0] 0 /\
+  p_next [0] 1 (RescaleProofs.scaled QcFR c4 nw4) [0; 0] 0 = mkq 1 2 /\
+  (forall k, k <= length [0; 0] -> c4 ([] ++ firstn k [0; 0]) <> s0 /\ zsum [0] 1 nw4 ([] ++ firstn k [0; 0]) <> s0) /\
+  chain [0] 1 (RescaleProofs.scaled QcFR c4 nw4) [] [0; 0] = chain [0] 1 nw4 [] [0; 0] /\
+  chain [0] 1 (RescaleProofs.scaled QcFR c4 nw4) [] [0; 0] = mkq 1 8.
+Proof.
+  assert (Hc : c4 [0; 0] <> s0) by (vm_compute; discriminate).
+  assert (Hz : zsum [0] 1 nw4 [0; 0] <> s0) by (vm_compute; discriminate).
+  assert (Hk : forall k, k <= length [0; 0] -> c4 ([] ++ firstn k [0; 0]) <> s0 /\ zsum [0] 1 nw4 ([] ++ firstn k [0; 0]) <> s0).
+  { intros k Hk. destruct k as [|[|[|k]]]; [| | |cbn in Hk; lia]; split; vm_compute; discriminate. }
+  destruct (C04.C04_rescaling_invariant QcFR [0] 1 c4 nw4) as [P1 P2].
+  split; [exact Hc|split; [exact Hz|split; [vm_compute; discriminate|split; [exact (P1 [0; 0] 0 Hc Hz)|split; [vr|split; [exact Hk|split; [exact (P2 [0; 0] [] Hk)|vr]]]]]]].
+Qed.
+
 Print Assumptions C02_ranked_grammars_nonvacuous.
 Print Assumptions C02_stable_weights_solve_the_equations_nonvacuous.
 Print Assumptions C09_product_grammar_nonvacuous.
 Print Assumptions C11_path_equations_nonvacuous.
 Print Assumptions C14_forward_conjugate_nonvacuous.
 Print Assumptions C14_conjugates_are_equivalent_nonvacuous.
+Print Assumptions C04_rescaling_invariant_nonvacuous.
